@@ -4,6 +4,7 @@ import (
 	"fmt"
 	"math"
 	"strings"
+	"unicode/utf8"
 )
 
 // TokenType holds the kinds of tokens within within a generated password
@@ -105,7 +106,7 @@ func (ts Tokens) MakeIndices() (Indices, error) {
 		ti := make(Indices, len(ts))
 		for i, tok := range ts {
 			v := tok.Value()
-			lng := len(v)
+			lng := utf8.RuneCountInString(v) // Tokenize counts characters, not bytes
 			if lng > math.MaxUint8 {
 				return nil, fmt.Errorf("token too large (%d)", lng)
 			}
@@ -123,7 +124,7 @@ func (ts Tokens) MakeIndices() (Indices, error) {
 
 		for i, tok := range ts {
 			v := tok.Value()
-			lng := len(v)
+			lng := utf8.RuneCountInString(v) // Tokenize counts characters, not bytes
 			tt := tok.Type()
 			if lng > math.MaxUint8 {
 				return nil, fmt.Errorf("token too large (%d)", lng)
@@ -300,7 +301,7 @@ func (ts Tokens) isAllOfType(tt TokenType) bool {
 func (ts Tokens) maxTokenLen() int {
 	max := 0
 	for _, t := range ts {
-		l := len(t.Value())
+		l := utf8.RuneCountInString(t.Value())
 		if l > max {
 			max = l
 		}
